@@ -239,10 +239,14 @@ def flp : P String := do
     -- coefficients of magnitude < 1e-5 (the "ugly" stream) put the instance below lp_solve's own accuracy (LP::getPrecision = 5e-7):
     -- a gap between 1e-7 and 1e-5 is then reported as ill-conditioned, not as a verdict
     let gap := phiW - opt
+    -- φ is in the units of the target: with data above 2^6 (round-3 streams scale bases and targets by up to 2^16) the tolerance is
+    -- relative to the magnitude of the terms of Σ w C − b, as lp_solve's own accuracy is; small data keeps 1e-7·(1+|opt|)
+    let mag := (maxAbs (b.flatMap (·.vals))) + maxAbs w * maxAbs (C.flatMap (·.vals))
+    let sc := 1 + absQ opt + (if decide (mag > 64) then mag else 0)
     -- … or the (certified or returned) weights are of order > 1e6, where a 1e-7 absolute tolerance on φ is below double precision
     let blown := decide (maxAbs w > 10^6) || decide (maxAbs x > 10^6)
-    if tiny && decide (gap > tol7 * (1 + absQ opt)) && (decide (gap ≤ (1 / 10^5) * (1 + absQ opt)) || blown) then return "skip ill_conditioned" else
-    let v := v.failIf (decide (gap > tol7 * (1 + absQ opt))) s!"FactoredLP {kind} maxerr={ratStr phiW} flat_optimum={ratStr opt}"
+    if tiny && decide (gap > tol7 * sc) && (decide (gap ≤ (1 / 10^5) * sc) || blown) then return "skip ill_conditioned" else
+    let v := v.failIf (decide (gap > tol7 * sc)) s!"FactoredLP {kind} maxerr={ratStr phiW} flat_optimum={ratStr opt}"
     return v.render
 
 def basisMClose (a b : BasisM) : Bool :=
@@ -307,7 +311,13 @@ def mdp : P String := do
     let opt := dualVal rows y
     if st != "some" then
       -- lp_solve's own numerical failure codes (NUMFAILURE 5, ACCURACYERROR 25) are a different clause than a wrong LP
-      let kind := if rec.solveRes == 5 || rec.solveRes == 25 then "lp_solve_numerical_failure" else s!"spurious_infeasible{sfx}"
+      -- … and so is UNBOUNDED (3) / INFEASIBLE (2) reported for an LP that is, row by row, the generated one (no diff so far): by
+      -- `mdpLP_same_optimum` that LP has the certified flat optimum, so lp_solve's answer is wrong, not the construction.  With a
+      -- diff the kind stays `spurious_infeasible` (a known lp_solve finding must not mask a wrong LP).
+      let lpSame := v.diffs.isEmpty
+      let kind := if rec.solveRes == 5 || rec.solveRes == 25 then "lp_solve_numerical_failure"
+                  else if lpSame && (rec.solveRes == 3 || rec.solveRes == 2) then "lp_solve_wrong_unbounded_or_infeasible"
+                  else s!"spurious_infeasible{sfx}"
       return (v.failIf true s!"LinearProgramming {kind} status={st} lp_solve_result={rec.solveRes} flat_optimum={ratStr opt}").render
     let v := v.failIf (w.length != n) s!"LinearProgramming wrong_weight_count {w.length}"
     let scale := 1 + maxAbs w
